@@ -37,7 +37,7 @@ variants_of() {
 case "${1:-}" in
   setup)
     build_plain || exit 2
-    for v in b3; do build_variant $v || exit 2; done
+    for v in b3 sched; do build_variant $v || exit 2; done
     echo "setup ok"
     ;;
   replay)
